@@ -186,6 +186,19 @@ def workload(name):
 
         return body
 
+    if name == "W7":
+        # thread bodies run inside COPIES of the starting thread's contextvars context
+        # (asyncio.to_thread, Thread(context=...), copy_context().run): a copied context shares
+        # every mutable object the context variables refer to
+        import contextvars
+
+        with jaxtyped("context"):  # the starting thread has used jaxtyping before the copies are taken
+            c(Duck((1,)), F["a"])
+        c1, c2 = contextvars.copy_context(), contextvars.copy_context()
+        b1, b2 = ctx_block(2, 3), call_with_ctx(6)
+        return [lambda: c1.run(b1), lambda: c2.run(b2)]
+    if name == "W8":  # both threads check THE SAME structured PyTree annotation object with '?' axes
+        return [tree_q(e["PT"], 2, 3), tree_q(e["PT"], 5, 6)]
     if name == "W5":  # two context blocks open at the same time at different stack depths
         return [small_ctx(3), call_with_ctx(6)]
     if name == "W6":  # both threads check OUTSIDE any context (temporary memos)
@@ -272,9 +285,9 @@ def run(ctx):
     from .. import sched
 
     if ctx.quick:
-        plan = [("W1", 1, "lines"), ("W2", 1, "lines"), ("W3", 1, "storage"), ("W4", 1, "lines"), ("W5", 2, "storage"), ("W6", 1, "lines")]
+        plan = [("W1", 1, "lines"), ("W2", 1, "lines"), ("W3", 1, "storage"), ("W4", 1, "lines"), ("W5", 2, "storage"), ("W6", 1, "lines"), ("W7", 1, "storage"), ("W8", 1, "lines")]
     else:
-        plan = [("W1", 2, "lines"), ("W2", 2, "storage"), ("W2", 1, "lines"), ("W3", 1, "lines"), ("W4", 1, "lines"), ("W4", 2, "storage"), ("W5", 2, "lines"), ("W6", 2, "storage"), ("W6", 1, "lines")]
+        plan = [("W1", 2, "lines"), ("W2", 2, "storage"), ("W2", 1, "lines"), ("W3", 1, "lines"), ("W4", 1, "lines"), ("W4", 2, "storage"), ("W5", 2, "lines"), ("W6", 2, "storage"), ("W6", 1, "lines"), ("W7", 2, "storage"), ("W7", 1, "lines"), ("W8", 2, "storage"), ("W8", 1, "lines")]
     jobs, meta = [], {}
     for wname, bound, mode in plan:
         name = wname
